@@ -47,6 +47,52 @@ PROPERTIES.update({
             "level_note": "Trusts the script enumerator (its count is reported in the evidence) and the op-list checker."},
 })
 
+PROPERTIES.update({
+    "C07": {"category": "fault_enumeration",
+            "anchor_files": ["src/deadline_support.rs", "src/algorithms/myers.rs", "src/algorithms/lcs.rs", "src/algorithms/patience.rs", "src/text/mod.rs", "src/common.rs"],
+            "technique": "fault injection through a virtual clock hooked into deadline_exceeded (fuel mode: expiry at every check index k; time mode: expiry when a comparison-driven virtual time passes T), online trace monitor + op-list checker on every expired run, comparison-counting items for promptness, differential plumbing check of every deadline-taking entry point incl. the Instant that reaches the check",
+            "level_text": "For each input the number P of deadline checks is learnt from a never-expiring run, then the diff is re-run with the deadline expiring at EVERY check k in 0..=P (all pairs over 3 letters with N+M<=10, all sub-ranges of short pairs; sampled k for inputs up to 400 items): every run must pass the C01 trace monitor (finish exactly once) and the C02 walk. Promptness is decided on counted comparisons (never wall-clock): after the first expired check (fuel mode) and after virtual time T (time mode) at most 6(N+M)+16 comparisons. Plumbing: capture_diff(_slices)_deadline and TextDiffConfig::deadline/timeout (<=100 and >100 tokens) must equal the reference pipeline under the same clock and pass on the configured Instant.",
+            "level_note": "Trusts hook H2 (virtual clock; ~40 lines) and that one tick per element comparison is a fair model of time for the promptness claim (work inside hashing or allocation is not counted). Observed maxima (about 2.0 comparisons per item after expiry) are reported in the evidence; the bound 6 leaves 3x head-room."},
+})
+
+PROPERTIES.update({
+    "C04": {"category": "exploration",
+            "anchor_files": ["src/text/mod.rs", "src/text/abstraction.rs", "src/iter.rs", "src/types.rs"],
+            "technique": "offline checker over the change stream of real text diffs (byte-exact reconstruction of both inputs, index discipline) for 5 tokenizers x 3 algorithms x {str,[u8]} on generated hostile texts incl. invalid UTF-8 and token counts on both sides of the >100 switch",
+            "level_text": "Every change stream (iter_all_changes and per-op iter_changes) is replayed into two byte buffers that must equal the inputs exactly, with per-side indices counting from zero. Inputs are generated from an atom pool covering every Unicode whitespace, CR/LF/CRLF mixes, missing final newline, multi-byte and emoji clusters and, for bytes, spliced invalid UTF-8; plus texts of 0..400 tokens.",
+            "level_note": "Sampling only (no exhaustive part); trusts the generator's coverage of the atom pool, reported through samples and counters."},
+    "C06": {"category": "exploration",
+            "anchor_files": ["src/text/abstraction.rs"],
+            "technique": "differential check of all tokenizers against independent byte-level reference splitters (own Unicode White_Space table, std utf8_chunks for validity) + direct shape assertions; exhaustive over strings of a 12-atom hostile alphabet, sampled over generated texts incl. invalid UTF-8; str vs [u8] equality on valid UTF-8",
+            "level_text": "Each of the 6 tokenizers on str and [u8] is checked for: non-empty tokens that are consecutive slices of the input (lossless), equality with a reference splitter written over raw bytes (lines, lines-and-newlines, words, chars), direct shape assertions, and str/[u8] agreement on valid UTF-8. Complete for every string of up to 4 (thorough 6) atoms from {a, SP, LF, CR, e-acute, NBSP, U+2028, VT, 0xFF, truncated E2 82, NEL, TAB}.",
+            "level_note": "For invalid UTF-8 the reference assumes the 'maximal subpart' chunking of std::str::Utf8Chunks (what bstr documents too). Unicode word / grapheme tokenizers are only required to be lossless and non-empty, as the property states."},
+    "C12": {"category": "exploration",
+            "anchor_files": ["src/common.rs", "src/algorithms/capture.rs", "src/text/mod.rs"],
+            "technique": "differential check of group_diff_ops / Capture::into_grouped_ops / TextDiff::grouped_ops against an independent reference grouping (clusters separated by equal runs > 2n) plus direct assertions (contiguity, context <= n, changes preserved once and in order), for every n in a list that includes 0 and values around usize::MAX/2",
+            "level_text": "Random valid alternating op lists with independent non-zero offsets and all small exhaustive op lists are grouped for 14 radii (0..7, 13, 100, MAX/2, MAX/2+1, MAX-1, MAX) in both checked and release arithmetic; the result must equal an independently formulated reference after dropping zero-length Equal placeholders, and satisfy the property's clauses directly.",
+            "level_note": "Zero-length Equal placeholders (n = 0) are tolerated as the statement allows '0 items of context'."},
+    "C13": {"category": "exploration",
+            "anchor_files": ["src/iter.rs", "src/types.rs", "src/text/mod.rs", "src/udiff.rs"],
+            "technique": "differential check of iter_changes / iter_slices / apply_to_hook round trip (owned and &mut capture) against a reference expansion, exhaustive over op kind x offsets x lengths on distinguishable sequences and sampled; whole-diff and hunk iteration compared with per-op expansion on real diffs",
+            "level_text": "Every op kind with every in-bounds offset/length combination up to 4 over sequences whose old and new values differ at every index (so a side mix-up is visible), plus 150k random ops; TextDiff::iter_all_changes, TextDiff::iter_changes and UnifiedDiffHunk::iter_changes are compared with the reference expansion of the ops on real diffs.",
+            "level_note": "Trusts the 20-line reference expansion."},
+    "C15": {"category": "exploration",
+            "anchor_files": ["src/algorithms/patience.rs", "src/algorithms/utils.rs"],
+            "technique": "differential check of Patience's Equal pairs against an independent anchor model (items unique on both sides; LIS of their orders), raw and captured, exhaustive over short sequences and sampled over inputs built to have repeated backgrounds with crossing unique items",
+            "level_text": "Complete for all pairs over 3 letters up to length 6 (thorough 7) and over 4 letters up to length 5 (6); 120k (2.5M) random inputs with letters repeated 1..5 times (odd and even counts) plus scattered unique items, incl. sub-ranges and >100-token text diffs. The number of both-unique items reported Equal must reach the LIS bound.",
+            "level_note": "Trusts the anchor model (hash-map counting + LCS DP)."},
+    "C19": {"category": "exploration",
+            "anchor_files": ["src/algorithms/myers.rs", "src/algorithms/patience.rs", "src/algorithms/utils.rs"],
+            "technique": "counting monitor: items whose PartialEq counts calls; comparisons of each run are checked against 8*(N+M+1)*(D+1) with D taken from the script reported by the same run; structured large-input families (near-identical, block move, periodic, doubled, truncated, small alphabet)",
+            "level_text": "A complexity claim cannot be proved by running; it can be refuted on the families and sizes that are run (up to 4000 items quick, 20000 thorough). Decided on counted comparisons only. Observed maxima (0.8 Myers, 1.5 Patience) are reported; the factor 8 leaves 5x head-room while any quadratic regression on near-identical inputs of >= 1000 items exceeds it by an order of magnitude.",
+            "level_note": "Work that is not an element comparison (hashing, allocation) is not counted."},
+    "C20": {"category": "exploration",
+            "anchor_files": ["src/algorithms/utils.rs", "src/algorithms/patience.rs", "src/text/mod.rs", "src/text/abstraction.rs"],
+            "technique": "differential / metamorphic checks: repeated calls (fresh hash seeds), other threads, separate processes (result digests compared by the driver), order-preserving injective relabellings (Strings, u64), constant-hash items, str vs [u8] text diffs; hook H4 reports how often the hash iteration order seen by unique() actually varied",
+            "level_text": "Schedules here mean threads and hasher seeds: the same inputs are diffed 4x in one thread, on 3 other threads, and again in a second process (thorough: more), and all results/digests must agree; relabelled and hash-colliding inputs must give identical ops. The evidence states for how many Patience inputs the pre-sort hash order differed between calls, i.e. the sort really mattered in what was observed.",
+            "level_note": "Equality for all hasher seeds is sampled over the seeds the runs happened to draw."},
+})
+
 DEFAULT_ASSUMPTIONS = [
     "verdict covers only the executions that were generated (bounded-exhaustive parts are complete within the stated bound; everything else is seeded sampling)",
     "the reference model / oracle written for this property is correct (cross-checked by seeded mutants, see DESIGN.md)",
@@ -64,12 +110,20 @@ COVERAGE = set(PROPERTIES)
 
 def stages_for(prop, tier):
     if tier == "quick":
-        return [{"name": "checked", "kind": "native", "profile": "checked", "tier": "quick", "budget_s": 240, "watchdog_s": 900}]
+        st = [{"name": "checked", "kind": "native", "profile": "checked", "tier": "quick", "budget_s": 240, "watchdog_s": 900}]
+        if prop == "C20":
+            # a second process: fresh hash seeds, result digests must agree
+            st.append({"name": "process2", "kind": "native", "profile": "checked", "tier": "quick", "budget_s": 240, "watchdog_s": 900, "same_digest_as": "checked"})
+        return st
     st = [
         {"name": "checked", "kind": "native", "profile": "checked", "tier": "thorough", "budget_s": 1500, "watchdog_s": 3600},
         # release profile: debug_assert!/overflow checks off — observable behaviour can differ
         {"name": "release", "kind": "native", "profile": "release", "tier": "quick", "budget_s": 300, "watchdog_s": 900},
     ]
+    if prop == "C20":
+        for i in range(2, 6):
+            st.append({"name": "process%d" % i, "kind": "native", "profile": "checked", "tier": "thorough", "budget_s": 1500, "watchdog_s": 3600, "same_digest_as": "checked"})
+        st[1]["same_digest_as"] = None
     if prop in MIRI:
         st.append({"name": "miri", "kind": "miri", "budget_s": 600, "watchdog_s": 1500})
     if prop in COVERAGE:
